@@ -59,7 +59,7 @@ fn for_c05(o: Op) -> Option<Op> {
 
 fn for_c06(o: Op) -> Option<Op> {
     Some(match o {
-        Op::Send { kind, own_id, .. } if !matches!(kind, K::Qos0 | K::Ready) => Op::Send { kind, again: false, own_id: own_id % 4 },
+        Op::Send { kind, own_id, .. } if !matches!(kind, K::Qos0 | K::Ready) => Op::Send { kind, again: false, own_id: if own_id >= 254 { own_id } else { own_id % 4 } },
         Op::SendBad { kind, how } if matches!(kind, K::Qos0 | K::Qos1 | K::Subscribe | K::NoBlock) => Op::SendBad { kind, how: (how & 3) % 3 | (how >> 2) % 4 << 2 },
         Op::StreamStart { qos, bad, .. } => Op::StreamStart { qos: qos % 2, declared: 3, bad: 1 + bad % 2 },
         Op::Chunk { .. } => Op::Chunk { stream: 0, len: 1 },
